@@ -95,6 +95,8 @@ class DataOps:
                 self.ch_tab[c] = {k: d['values'][j] for k, d in spec['ch_desc'].items()}
             for k_, t in enumerate(spec['tu']):
                 self.time_tab.setdefault(t, {}).update({k: d['values'][k_] for k, d in spec['time_desc'].items()})
+        for kind_ in ('dataset', 'tdataset'):
+            pool.sem_checkers[kind_] = (lambda slot, opname, prop='C11': self.check(slot, opname, prop=prop), 'C11')
         for spec in family['roots']:
             obj = build_dataset(spec)
             sem = {'rows': [(o, None) for o in spec['ou']], 'cols': [(c, None) for c in spec['cu']],
@@ -721,6 +723,8 @@ def _add_data_producers():
                 if method in ('mahalanobis', 'crossnobis') and o['flag2']:
                     noise = np.eye(obj.n_channel) * 2.0
                 calc_rdm(obj, method=method, descriptor='cond', cv_descriptor=cvd, noise=noise)
+        except (ImportError, NameError) as e:
+            raise HarnessError(f'producer {name}: {e!r}')
         except Exception:
             self.ctx.probe('producer_raised:' + name.split('[')[0])
         self.pool.sweep(name, args=[src.sid])
